@@ -100,7 +100,7 @@ func c12Build(kind, forms string, dflt, dfltBrace bool) *c12Tpl {
 			contents = append(contents, content)
 			contentsOut = append(contentsOut, content)
 		}
-	case "statements", "statements-nested":
+	case "statements", "statements-nested", "statements-nested-default":
 		s := at.New(ClsUserName, "script", "names")
 		c0 := at.New(ClsPlainCmd, "cmd", "")
 		c1 := at.New(ClsPlainCmd, "cmd", "")
@@ -119,6 +119,12 @@ func c12Build(kind, forms string, dflt, dfltBrace bool) *c12Tpl {
 				}
 			} else {
 				content = fmt.Sprintf("%s(\"text %d$\", %s)", ph(ca), i, ph(f))
+			}
+			if kind == "statements-nested-default" && i == n {
+				// inside the '_' case: a poryswitch on the same key that has a case
+				// for label 0 only and no '_' - when the outer '_' is selected the
+				// inner one matches nothing and the program must be rejected
+				content += fmt.Sprintf("\nporyswitch(%s) {\n%s: %s\n}", ph(t.key), ph(t.labels[0]), ph(cb))
 			}
 			contents = append(contents, content)
 			out := content
@@ -143,9 +149,10 @@ func c12Build(kind, forms string, dflt, dfltBrace bool) *c12Tpl {
 			contents = append(contents, content)
 			contentsOut = append(contentsOut, content)
 		}
-	case "movement", "moves", "mart", "movement-empty-case", "mart-empty-case":
+	case "movement", "moves", "mart", "movement-empty-case", "mart-empty-case", "movement-nested", "moves-nested", "mart-nested":
 		emptyFirst := strings.HasSuffix(kind, "-empty-case")
-		kind := strings.TrimSuffix(kind, "-empty-case")
+		nestedFirst := strings.HasSuffix(kind, "-nested")
+		kind := strings.TrimSuffix(strings.TrimSuffix(kind, "-empty-case"), "-nested")
 		var open, close string
 		mk := func() string { return ph(at.New(ClsIdent, "step", "")) }
 		switch kind {
@@ -174,8 +181,16 @@ func c12Build(kind, forms string, dflt, dfltBrace bool) *c12Tpl {
 			} else {
 				content = mk()
 			}
+			out := content
+			if nestedFirst && i == 0 {
+				// the first case consists of a nested poryswitch on the same key
+				// (when it is selected, the inner one selects its first case too)
+				inner := mk()
+				content = fmt.Sprintf("poryswitch(%s) {\n%s: %s\n_: %s\n}", ph(t.key), ph(t.labels[0]), inner, mk())
+				out = inner
+			}
 			contents = append(contents, content)
-			contentsOut = append(contentsOut, content)
+			contentsOut = append(contentsOut, out)
 		}
 	}
 	var cases []string
@@ -218,7 +233,11 @@ func c12Case(t *c12Tpl, lint bool) *Case {
 	}
 	variants := []Variant{{Name: "base", Opt: opt}}
 	for i, s := range t.spliced {
-		variants = append(variants, Variant{Name: fmt.Sprintf("spliced%d", i), Opt: CompileOpts{Optimize: true, Lint: lint}, Prog: &Program{Atoms: t.atoms, Tops: []interface{}{&TopRaw{Text: s}}}})
+		so := CompileOpts{Optimize: true, Lint: lint}
+		if !lint && strings.Contains(s, "poryswitch(") {
+			so.SwKeys, so.SwVals = opt.SwKeys, opt.SwVals // the reference still contains a (nested) poryswitch
+		}
+		variants = append(variants, Variant{Name: fmt.Sprintf("spliced%d", i), Opt: so, Prog: &Program{Atoms: t.atoms, Tops: []interface{}{&TopRaw{Text: s}}}})
 	}
 	shape := c12Shape{Template: t.name, Forms: t.forms, Default: t.hasDflt, Lint: lint}
 	cs := &Case{Name: fmt.Sprintf("c12/%s/%s/lint=%v", t.name, t.forms, lint), Prog: prog, Variants: variants, NonTrivial: true, Shape: shape, MaxPaths: 256}
@@ -259,9 +278,21 @@ func c12Case(t *c12Tpl, lint bool) *Case {
 		}
 		want := x.Res[fmt.Sprintf("spliced%d", sel)]
 		if want.Err.IsErr {
-			panic(interp.Inconclusive{Msg: "the spliced reference program does not compile: " + interp.ToString(want.Err.Msg)})
+			// the program with the selected case spliced in is itself rejected
+			// (e.g. a nested poryswitch in it has no matching case): so must be
+			// the program with the poryswitch
+			if !base.Err.IsErr {
+				return &Violation{Sub: "accept", Msg: fmt.Sprintf("the program compiles although the program with case #%d spliced in is rejected (%s)", sel, interp.ToString(want.Err.Msg)), Tags: tags}
+			}
+			return nil
 		}
 		if base.Err.IsErr {
+			if strings.HasPrefix(t.name, "statements-nested-default") && sel != n && strings.Contains(interp.ToString(base.Err.Msg), "no poryswitch case found") {
+				// explanation of known finding C12-unselected-case-nested-no-match:
+				// the '_' case is not the selected one, and the only poryswitch
+				// without a matching case is the one nested inside it
+				tags = append(tags, "unselected_case_nested_no_match")
+			}
 			return &Violation{Sub: "accept", Msg: fmt.Sprintf("the program with the poryswitch is rejected (%s) although the program with case %d spliced in compiles", interp.ToString(base.Err.Msg), sel), Tags: append(tags, "form:"+t.forms)}
 		}
 		v := expectLines(x, "equivalence", fmt.Sprintf("output vs output of the program with case #%d spliced in", sel), outputLines(base.Out, false), outputLines(want.Out, false))
@@ -287,6 +318,8 @@ func matchKnownC12(k *KnownFinding, f *Finding) bool {
 	switch kindOf(k) {
 	case "poryswitch_fallback_type_dropped":
 		return sh.Template == "text" && has("typed_default_selected") && f.ReplaySub == "equivalence"
+	case "unselected_case_nested_no_match":
+		return strings.HasPrefix(sh.Template, "statements-nested-default") && has("unselected_case_nested_no_match") && f.ReplaySub == "accept" && strings.Contains(f.ReplayMsg, "no poryswitch case found")
 	case "brace_case_in_moves":
 		return sh.Template == "moves" && strings.Contains(sh.Forms, "b") && (f.ReplaySub == "accept" || f.ReplaySub == "lint") && strings.Contains(f.ReplayMsg, "expected movement command, but got '}'")
 	}
@@ -314,6 +347,21 @@ func RunC12(env *Env, rep *Report) {
 			}
 		}
 	}
+	// nested poryswitch in list cases (colon and brace form, followed by
+	// another case) and inside the '_' case of a statement poryswitch
+	for _, kind := range []string{"movement-nested", "moves-nested", "mart-nested"} {
+		for _, f := range []string{"cc", "bc", "cb"} {
+			if kind == "moves-nested" && f[0] == 'b' {
+				continue // brace-form cases in moves() are exercised by the plain families
+			}
+			for _, d := range []int{0, 1} {
+				cases = append(cases, c12Case(c12Build(kind, f, d > 0, false), false))
+			}
+		}
+	}
+	for _, f := range []string{"c", "cb"} {
+		cases = append(cases, c12Case(c12Build("statements-nested-default", f, true, true), false))
+	}
 	// a constant that may be spelled like a case label or the switch value
 	for _, kind := range []string{"statements", "text", "movement", "mart"} {
 		for _, f := range []string{"c", "cb"} {
@@ -335,7 +383,7 @@ func RunC12(env *Env, rep *Report) {
 	}
 	rep.Technique = "symbolic execution of the real poryswitch parsing (go/ssa) with symbolic -s value and case labels; relational assertion between the compilation of P and of P with the selected case spliced in, the match pattern decided by the solver (z3)"
 	rep.Explanation = "Bounded symbolic verification, not a proof. Programs with a poryswitch in each of its four positions (statements - also with a nested poryswitch -, text, movement / moves() steps, mart items), up to the stated number of named cases in colon and brace form, with and without a '_' case, are compiled by symbolic execution with the -s value and every case label symbolic; in the same symbolic state the program with each case's content spliced in place of the poryswitch is compiled too. Which case matches is a solver-decided fork (first named case equal to the value, else '_', else none). Asserted: the output equals, line by line as ropes, the output of the program with exactly the selected case spliced in (so no token of another case influences it; inline text numbering included); no match and no '_' is an error; in lint mode a missing switch value is never an error. A subset is repeated with a constant definition in front whose name is free to coincide with a case label or with the -s value (neither is a constant use site)."
-	rep.Bounds = map[string]interface{}{"positions": []string{"statements", "statements with nested poryswitch", "text", "movement", "moves()", "mart"}, "case_forms": forms, "default_case": "absent / colon form / brace form", "cases": len(cases)}
+	rep.Bounds = map[string]interface{}{"positions": []string{"statements", "statements with nested poryswitch (in a named case; in the '_' case without a match)", "movement / moves() / mart with a nested poryswitch as a case's content", "text", "movement", "moves()", "mart"}, "case_forms": forms, "default_case": "absent / colon form / brace form", "cases": len(cases)}
 	rep.Outside = []string{"more named cases", "deeper nesting", "parsing of the -s key=value flag (main.mapOption.Set)", "programs whose unselected cases do not parse (rejected by design)"}
 	rep.Assumptions = []string{"case labels are pairwise distinct identifiers other than '_'", "names are generic identifiers (Int-coded)"}
 	rep.Functions = []string{"parsePoryswitchHeader", "parsePoryswitchStatement", "parsePoryswitchStatementCases", "parsePoryswitchStatements", "parsePoryswitchTextStatement", "parsePoryswitchTextCases", "parsePoryswitchListStatement", "parsePoryswitchListCases", "parseMovementValue", "parseMartValue"}
